@@ -16,7 +16,10 @@ def mk_poly(M, bnds, var_ids=None, idx_ids=None, narrow=False):
     n = len(bnds)
     var_ids = var_ids or ["0"] + ["v%d" % j for j in range(n)]
     idx_ids = idx_ids or ["r%d" % i for i in range(len(M))]
-    vs = [puan.variable(var_ids[0], (1, 1))] + [puan.variable(var_ids[j + 1], tuple(bnds[j])) for j in range(n)]
+    # column 0 carries b; the variable declared for it is the support vector variable (bounds (1,1)) or, as in the library's own
+    # examples, a plain puan.variable("0") with the default bounds (0,1): chosen from the data, it must not matter for A
+    b0 = (1, 1) if (len(M) + n + sum(int(x[0]) + int(x[1]) for x in bnds)) % 4 else (0, 1)
+    vs = [puan.variable(var_ids[0], b0)] + [puan.variable(var_ids[j + 1], tuple(bnds[j])) for j in range(n)]
     ix = [puan.variable(i, (0, 1)) for i in idx_ids]
     arr = np.array(M, dtype=np.int64).reshape(len(M), n + 1)
     if narrow and M:
@@ -366,3 +369,18 @@ FIXED_SYSTEMS = [
     # int16-wide bounds with large coefficients
     ([[1000000, 32767, -255], [-5, -1, 0]], [(MIN_INT, MAX_INT), (-100, 100)]),
 ]
+
+def gen_large_sparse_planted(rng):
+    """a polyhedron of the size configurators produce: thousands of entries, a few per cent non-zero, rows without variables,
+    and a planted solution (so that the tightening oracle has feasible points to hold against the result)"""
+    R, n = rng.randint(64, 80), rng.randint(66, 80)
+    bnds = [(0, 1) if rng.random() < 0.85 else (rng.randint(-3, 0), rng.randint(1, 4)) for _ in range(n)]
+    x0 = [rng.randint(lo, hi) for lo, hi in bnds]
+    M = []
+    for i in range(R):
+        if rng.random() < 0.1:
+            M.append([rng.choice([-1, 0])] + [0] * n); continue
+        row = [rng.choice([-2, -1, 1, 1, 3]) if rng.random() < 0.05 else 0 for _ in range(n)]
+        M.append([sum(c * v for c, v in zip(row, x0)) - rng.choice([0, 0, 1, 2])] + row)
+    return M, bnds, x0
+
